@@ -70,7 +70,7 @@ func c20Journal(r *core.Rand) *journal.Journal {
 	for i := 0; i < nT; i++ {
 		t := journal.Trip{
 			TripUID: core.Pick(r, c20Strings) + strconv.Itoa(i), TripID: core.Pick(r, c20Strings), RouteID: core.Pick(r, c20Strings),
-			DirectionID: gtfs.DirectionID(core.Pick(r, []int{0, 1, 2, 2, 1, 0, 7})), StartTime: c20Time(r), VehicleID: core.Pick(r, c20Strings), IsAssigned: r.Bool(),
+			DirectionID: gtfs.DirectionID(core.Pick(r, []int{0, 1, 2, 2, 1, 0, 7, 3, 4, 255})), StartTime: c20Time(r), VehicleID: core.Pick(r, c20Strings), IsAssigned: r.Bool(),
 			LastObserved: c20Time(r), MarkedPast: c20TimePtr(r), NumUpdates: core.Pick(r, []int{0, 1, 7, -1, 1 << 40}),
 			NumScheduleChanges: core.Pick(r, []int{-1, 0, 3, 99999}), NumScheduleRewrites: core.Pick(r, []int{-1, 0, 2}),
 		}
